@@ -232,6 +232,24 @@ def exc_name(e: Optional[ast.AST]) -> str:
     return ast.unparse(e).split(".")[-1]
 
 
+def handler_yields(fn: ast.AST, h: ast.ExceptHandler, text: str = "NotImplemented") -> bool:
+    """The handler makes the function return `text`: `return NotImplemented` as its last statement, or `result = NotImplemented`
+    with every later `return` of the function returning that very name, not reassigned after the try statement."""
+    if not h.body:
+        return False
+    last = h.body[-1]
+    if isinstance(last, ast.Return):
+        return ast.unparse(last.value or ast.Constant(0)) == text
+    if isinstance(last, ast.Assign) and len(last.targets) == 1 and isinstance(last.targets[0], ast.Name) and ast.unparse(last.value) == text:
+        nm = last.targets[0].id
+        tr = getattr(h, "_parent", None)
+        end = getattr(tr, "end_lineno", None) or getattr(h, "end_lineno", 0)
+        later_rets = [r for r in ast.walk(fn) if isinstance(r, ast.Return) and r.lineno > end]
+        later_stores = [x for x in ast.walk(fn) if isinstance(x, ast.Name) and isinstance(x.ctx, ast.Store) and x.id == nm and x.lineno > end]
+        return bool(later_rets) and not later_stores and all(isinstance(r.value, ast.Name) and r.value.id == nm for r in later_rets)
+    return False
+
+
 def handlers_around(fi: FuncInfo, node: ast.AST) -> List[List[str]]:
     """Exception names caught by each enclosing try whose *body* contains node (innermost first)."""
     out: List[List[str]] = []
